@@ -36,6 +36,9 @@ def dispatch (j : Json) : List (String × Json) :=
     -- re-match() with a plain alphanumeric pattern (unanchored): the subject contains the pattern
     let r := if ((jstr j "s").splitOn (jstr j "p")).length > 1 then "rm:true" else "rm:false"
     [("m", Json.str r), ("s", Json.str r)]
+  | "un" =>
+    -- a union over node sets that are slices of arrays the tree keeps: a new set, the arrays untouched
+    [("m", Json.str "un:tree-untouched"), ("s", Json.str "un:tree-untouched")]
   | k => [("m", Json.str ("unknown-kind:" ++ k)), ("s", Json.str "unknown-kind")]
 
 /-- C06: the sub-cases are ordinary c01 / c02 cases; the model's prediction is what each gives in isolation -/
